@@ -62,12 +62,14 @@ func genC06(t *rapid.T) c06Case {
 			sizes[i] = rapid.IntRange(64, 256).Draw(t, "n-long")
 		}
 	}
-	mode := rapid.SampledFrom([]string{"random", "random", "reversed-chain", "cross", "deep-chain"}).Draw(t, "mode")
+	mode := rapid.SampledFrom([]string{"random", "random", "reversed-chain", "all-wait-last", "cross", "deep-chain"}).Draw(t, "mode")
 	if mode == "deep-chain" {
-		// one long connection whose every handler waits for its successor: up to
-		// 255 handlers of one connection are blocked at the same time
+		// one long connection whose every handler waits for the LAST request of
+		// the pipeline: up to 255 handlers of one connection are blocked at the
+		// same time (in the reversed chain only two are, each is released as soon
+		// as its successor has entered)
 		sizes[0] = rapid.IntRange(100, 256).Draw(t, "deep-n")
-		mode = "reversed-chain"
+		mode = "all-wait-last"
 	}
 	c.Drip = rapid.IntRange(0, 3).Draw(t, "drip") == 0
 	for ci := 0; ci < nc; ci++ {
@@ -84,6 +86,10 @@ func genC06(t *rapid.T) c06Case {
 			case "reversed-chain":
 				if k+1 < n {
 					q.WaitC, q.WaitPos = ci, k+1
+				}
+			case "all-wait-last":
+				if k+1 < n {
+					q.WaitC, q.WaitPos = ci, n-1
 				}
 			case "cross":
 				if nc > 1 && rapid.Bool().Draw(t, "crosswait") {
@@ -294,7 +300,7 @@ func c06Exec(c c06Case, st *lab.Stats) *lab.Fail {
 func TestC06(t *testing.T) {
 	lab.Prop[c06Case]{
 		ID: "C06", Part: "pipelines",
-		Rule: "rapid: 1..8 simultaneous connections, each pipelining 1..24 (occasionally 64..256; 'deep-chain' cases 100..256) requests of mixed operations with shuffled message IDs, in one write or drip-fed one write per request after the previous handler has entered; a generated dependency graph makes handlers block until a LATER request of the same connection (random, or the fully reversed chain) or any request of another connection has ENTERED its handler; oracle = every handler enters (a correct dispatcher always completes, a serial one deadlocks: verdict only with a stable goroutine census after 15 s), Request.ID of the k-th request sent is k, one ConnectionID per connection, distinct across connections; non-trivial = >= 2 requests and >= 1 blocking edge; distinct by hash of the case",
+		Rule: "rapid: 1..8 simultaneous connections, each pipelining 1..24 (occasionally 64..256; 'deep-chain' cases 100..256) requests of mixed operations with shuffled message IDs, in one write or drip-fed one write per request after the previous handler has entered; a generated dependency graph makes handlers block until a LATER request of the same connection (random, the fully reversed chain, or all waiting for the last one - up to 255 handlers of one connection blocked at once) or any request of another connection has ENTERED its handler; oracle = every handler enters (a correct dispatcher always completes, a serial one deadlocks: verdict only with a stable goroutine census after 15 s), Request.ID of the k-th request sent is k, one ConnectionID per connection, distinct across connections; non-trivial = >= 2 requests and >= 1 blocking edge; distinct by hash of the case",
 		Gen:  genC06, Exec: c06Exec,
 	}.Run(t)
 }
